@@ -46,6 +46,8 @@ type c02Case struct {
 	// consumed on the same channel first; the response under test is then
 	// the second one on that channel.
 	Prelude bool `json:"second_response_on_channel,omitempty"`
+	// Consumer "until-poll": see c02_poll.go
+	Consumer string `json:"consumer,omitempty"`
 }
 
 // c02Packets builds the packets (header+body) for a case.
@@ -234,6 +236,7 @@ func c02DeliverOpt(pkts [][]byte, via string, reads []int, prelude bool) (out c0
 		got.Dumps = append(got.Dumps, rest.Dumps...)
 		got.Types = append(got.Types, rest.Types...)
 		got.Errs = append(got.Errs, rest.Errs...)
+		got.Pkgs = append(got.Pkgs, rest.Pkgs...)
 		mu.Unlock()
 	}
 	mu.Lock()
@@ -274,7 +277,19 @@ func c02Exec(c *Ctx, cs c02Case, ref c02Ref) {
 			pkts[i] = p
 		}
 	}
-	out, err := c02DeliverOpt(pkts, cs.Via, cs.Reads, cs.Prelude)
+	var out c02Out
+	var err error
+	if cs.Consumer == "until-poll" {
+		finals := c02Finals(ref.d)
+		if finals == 0 {
+			r.Inconclusive("until-poll: the reference delivery of %s has no final DONE", cs.Resp)
+			return
+		}
+		out, err = c02DeliverPoll(pkts, cs.Prelude, finals)
+		r.Count("until_poll_deliveries", 1)
+	} else {
+		out, err = c02DeliverOpt(pkts, cs.Via, cs.Reads, cs.Prelude)
+	}
 	if err != nil {
 		r.Inconclusive("cannot set up connection: %v", err)
 		return
@@ -300,15 +315,33 @@ func c02Exec(c *Ctx, cs c02Case, ref c02Ref) {
 		inside = true
 	}
 	if inside {
-		key, _ := json.Marshal([]interface{}{cs.Resp, cs.Family, cs.Cuts, cs.EmptyAt, cs.EmptyEOM, cs.Reads, cs.Prelude, cs.EmptyTail, cs.StatusExtra})
+		key, _ := json.Marshal([]interface{}{cs.Resp, cs.Family, cs.Cuts, cs.EmptyAt, cs.EmptyEOM, cs.Reads, cs.Prelude, cs.EmptyTail, cs.StatusExtra, cs.Consumer})
 		r.Distinct(string(key))
 	}
 	fam := cs.Family
 	if cs.Prelude {
 		fam = "second-response/" + fam
 	}
+	if cs.Consumer == "until-poll" {
+		fam = "until-poll/" + fam
+	}
 	if len(out.d.Errs) > 0 {
 		r.Violate("error-surfaced/"+fam, fmt.Sprintf("response %s, %d packets: %d error(s) surfaced for a merely fragmented response, first: %s", cs.Resp, len(pkts), len(out.d.Errs), out.d.Errs[0]), cs)
+		return
+	}
+	if cs.Consumer == "until-poll" {
+		// multisets (messages come back at the end of a call)
+		g, w := c02Sorted(out.d.Dumps), c02Sorted(ref.d.Dumps)
+		if !sameStrings(g, w) {
+			kind := "different-packages"
+			if len(g) < len(w) {
+				kind = "packages-missing"
+			} else if len(g) > len(w) {
+				kind = "extra-packages"
+			}
+			r.Violate(kind+"/"+fam, fmt.Sprintf("response %s (%d bytes) in %d packets (cuts %v, empty at %v, header-only EOM %v) arriving one after the other while the consumer polls with NextPackageUntil(wait=false): callback packages + messages of the returned errors + drain = %v, reference delivery %v; %s",
+				cs.Resp, len(body), len(pkts), cs.Cuts, cs.EmptyAt, cs.EmptyEOM, out.d.Types, ref.d.Types, firstDiff(g, w)), cs)
+		}
 		return
 	}
 	if !sameStrings(out.d.Dumps, ref.d.Dumps) {
@@ -402,6 +435,15 @@ func runC02(c *Ctx) {
 			nadd++
 			if nadd%5 == 0 {
 				cs.Prelude = true
+				jobs = append(jobs, job{cs, ref})
+			}
+			// every 7th (of at most 12 packets) also with the polling
+			// consumer, every other of those as the second response
+			if nadd%7 == 0 && len(cs.Cuts)+len(cs.EmptyAt)+cs.EmptyTail < 12 && cs.Family != "one-byte-bodies" {
+				cs.Prelude = nadd%14 == 0
+				cs.Consumer = "until-poll"
+				cs.Via = "reader"
+				cs.Reads = nil
 				jobs = append(jobs, job{cs, ref})
 			}
 		}
